@@ -194,6 +194,38 @@ func (vc *VC) evalDesignator(sc *Scope, d Expr) (out []modLoc, ok bool) {
 	}
 	switch x := d.(type) {
 	case EField:
+		// type-level designator  T.f / T.f.g : field f of every object of type T
+		if tt, path, isT := vc.typeDesignator(sc, x); isT {
+			anyObj := func(r Term) Term { return True }
+			cur := tt
+			for k, name := range path {
+				var pkg *types.Package
+				if n, isNamed := cur.(*types.Named); isNamed {
+					pkg = n.Obj().Pkg()
+				}
+				obj, ipath, _ := types.LookupFieldOrMethod(cur, true, pkg, name)
+				fv, isVar := obj.(*types.Var)
+				if !isVar || !fv.IsField() {
+					if gf := vc.p.ghostField(cur, name); gf != nil && k == len(path)-1 {
+						return []modLoc{{heap: gf.heap, sort: gf.sort, member: anyObj}}, true
+					}
+					sfail("no field %s in %s", name, typeKey(cur))
+				}
+				for _, idx := range ipath[:len(ipath)-1] {
+					cur = cur.Underlying().(*types.Struct).Field(idx).Type()
+				}
+				idx := ipath[len(ipath)-1]
+				ft := cur.Underlying().(*types.Struct).Field(idx).Type()
+				if k == len(path)-1 {
+					if isStruct(ft) {
+						sfail("type-level designator must end in a non-struct field")
+					}
+					hn, hs := env.fieldHeap(cur, idx)
+					return []modLoc{{heap: hn, sort: hs, member: anyObj}}, true
+				}
+				cur = ft
+			}
+		}
 		if ref, rt, isRef := sc.trRef(x.X); isRef {
 			if gf := vc.p.ghostField(rt, x.Name); gf != nil {
 				return []modLoc{{heap: gf.heap, sort: gf.sort, member: exact(ref)}}, true
@@ -366,8 +398,21 @@ func (vc *VC) scanInstr(f *Frame, in ssa.Instruction, heaps map[string]Sort, add
 		hn, hs := env.cellHeap(t)
 		heaps[hn] = hs
 	}
+	var addAlive func(t types.Type)
+	addAlive = func(t types.Type) {
+		if s, ok := t.Underlying().(*types.Struct); ok {
+			hn, hs := env.aliveHeap(t)
+			heaps[hn] = hs
+			for i := 0; i < s.NumFields(); i++ {
+				if isStruct(s.Field(i).Type()) {
+					addAlive(s.Field(i).Type())
+				}
+			}
+		}
+	}
 	switch x := in.(type) {
 	case *ssa.Alloc:
+		addAlive(x.Type().Underlying().(*types.Pointer).Elem())
 		if f != nil && f.scalarLocal(x) {
 			if addCell != nil {
 				addCell(x)
@@ -431,6 +476,11 @@ func (vc *VC) scanInstr(f *Frame, in ssa.Instruction, heaps map[string]Sort, add
 		hs, a := vc.callMods(f, x.Common(), depth)
 		for k, v := range hs {
 			heaps[k] = v
+		}
+		if g, ok := x.Common().Value.(*ssa.Function); ok && vc.p.inModule(g) {
+			for _, t := range vc.p.allocTypes(g) {
+				addAlive(t)
+			}
 		}
 		return a
 	}
@@ -598,4 +648,39 @@ func contractParamNames(ct *Contract, sig *types.Signature, recv types.Type) ([]
 		}
 	}
 	return names, typs
+}
+
+// typeDesignator recognises T.f.g where T names a struct type (not a variable).
+func (vc *VC) typeDesignator(sc *Scope, x EField) (types.Type, []string, bool) {
+	var names []string
+	var e Expr = x
+	for {
+		f, ok := e.(EField)
+		if !ok {
+			break
+		}
+		names = append([]string{f.Name}, names...)
+		e = f.X
+	}
+	id, ok := e.(EIdent)
+	if !ok {
+		return nil, nil, false
+	}
+	if _, isVar := sc.vars[id.Name]; isVar {
+		return nil, nil, false
+	}
+	if sc.frame != nil && sc.frame.hasLocal(id.Name) {
+		return nil, nil, false
+	}
+	t, err := vc.p.ResolveType(&TypeExpr{Kind: "name", Name: id.Name}, sc.pkg)
+	if err != nil || !isStruct(t) {
+		// pkg.T.f
+		if tp := vc.p.pkgByName[id.Name]; tp != nil && len(names) >= 2 {
+			if tn, ok := tp.Scope().Lookup(names[0]).(*types.TypeName); ok && isStruct(tn.Type()) {
+				return tn.Type(), names[1:], true
+			}
+		}
+		return nil, nil, false
+	}
+	return t, names, true
 }
